@@ -159,6 +159,11 @@ def lattice(ctx, far):
     for _ in range(25):
         idx = tuple(int(rng.integers(0, k)) for k in n)
         frac = rng.uniform(fmin, 1 - fmin, nd)
+        if _ % 3 == 0:
+            # just above / just below a face, at every distance between fmin and a third of
+            # a cell (log-uniform): "lower face inclusive" is about which side of the face
+            d = 10.0 ** rng.uniform(np.log10(fmin), -0.5, nd)
+            frac = np.where(rng.random(nd) < 0.5, d, 1 - d)
         p = spec.pmin + (np.asarray(idx) + frac) * spec.cell
         arg = p if rng.random() < 0.5 else tuple(p.tolist())
         okc, got = ctx.expect_ok("C01.point2index.accepts_inside", mesh.point2index, arg,
